@@ -38,7 +38,7 @@ Definition cres_eqb (a b : cres) : bool :=
   match a, b with
   | RHandle u, RHandle u' => u =? u'
   | ROpenErr, ROpenErr | ROk, ROk | ROverClose, ROverClose | RNoHandle, RNoHandle
-  | RPanic, RPanic | RDead, RDead => true
+  | RPanic, RPanic | RDead, RDead | RCloseErr, RCloseErr => true
   | _, _ => false
   end.
 
@@ -157,13 +157,14 @@ Definition call_apply (v : cview) (c : ccall) : option cview :=
   match c with
   | KOpen n r =>
       match r with
-      | RPanic | RDead | RNoHandle | ROk | ROverClose => None
+      | RPanic | RDead | RNoHandle | ROk | ROverClose | RCloseErr => None
       | RHandle _ => Some (mkV (v_live v) (v_names v) (aset n (getn n (v_bal v) + 1) (v_bal v)) (aset n (getn n (v_calls v) + 1) (v_calls v)) (v_drops v))
       | ROpenErr => Some (mkV (v_live v) (v_names v) (v_bal v) (aset n (getn n (v_calls v) + 1) (v_calls v)) (v_drops v))
       end
   | KClose n r =>
       match r with
-      | ROk => if getn n (v_bal v) =? 0 then None
+      | ROk | RCloseErr =>   (* a failing underlying Close still releases the reference *)
+               if getn n (v_bal v) =? 0 then None
                else Some (mkV (v_live v) (v_names v) (aset n (getn n (v_bal v) - 1) (v_bal v)) (v_calls v) (v_drops v))
       | ROverClose | RNoHandle => Some v
       | _ => None
